@@ -107,6 +107,20 @@ fn main() {
             }
         }
     }
+    if from_replay.is_none() {
+        // harvested members of the core family: a window (moving with seed and batch) over the definitions that ship
+        // with the repository under test, reduced to their automata (model::harvest)
+        let usable: Vec<_> = model::harvest::harvest().into_iter().filter_map(|h| prepare(&h.def).ok().filter(|p| p.graph.states.len() <= 600).map(|p| (h, p.graph.states.len()))).collect();
+        let n_h = if tier == "thorough" { 40 } else { 16 }.min(usable.len());
+        let start = if usable.is_empty() { 0 } else { ((seed.wrapping_mul(7).wrapping_add(batch)) as usize).wrapping_mul(n_h) % usable.len() };
+        for k in 0..n_h {
+            let (h, st) = &usable[(start + k) % usable.len()];
+            total_states += st;
+            let twin = twin_ok(&h.def);
+            defs.push(SubjectDef { family: "core".into(), def: h.def.clone(), skip_log: k % 2 == 0, has_value: vec![], error_cb: false, twin });
+        }
+        eprintln!("subjgen: {} harvested definitions usable, {} taken from #{}", usable.len(), n_h, start);
+    }
     let n_fixed = defs.len();
     while defs.len() < n_core + n_fixed && tries < n_core * 20 {
         tries += 1;
